@@ -348,4 +348,15 @@ for _f, _id in ((wmc_user, "C05.WMC-user"), (guard_insert, "C05.GUARD-insert"), 
                 (bracket, "C05.DOM-bracket")):
     _f.rule_id = _id
 
-RULES = [wmc_user, guard_insert, pdom_release, bracket]
+def guard_transitions(ctx, prog):
+    """became_necessary / became_unnecessary fire exactly on the transitions of is_necessary() (which includes
+    force_necessary): a second became_necessary duplicates parent edges and leaks necessity. Same rule as
+    C11.GUARD-stats, reported under C05."""
+    from .engine import run_relabelled
+    from .c11 import guard_stats
+    run_relabelled(ctx, prog, guard_stats, "C11.GUARD-stats", "C05.GUARD-transitions")
+
+
+guard_transitions.rule_id = "C05.GUARD-transitions"
+
+RULES = [wmc_user, guard_insert, pdom_release, bracket, guard_transitions]
